@@ -26,6 +26,16 @@ SMALL_POSITIVE = {"dashu_int::log::repr::log2_bounds_large::ADJUST": "const ADJU
 UNSIGNED = ("usize", "u8", "u16", "u32", "u64", "u128")
 
 
+def _small_positive_tail(name):
+    """the reviewed constant is a `const` item nested in a function: its path follows a rename of that function.
+    Accept the same constant name anywhere below the module of the reviewed one."""
+    for k in SMALL_POSITIVE:
+        module = k.rsplit("::", 2)[0]           # dashu_int::log::repr
+        if name.startswith(module + "::") and name.endswith("::" + k.rsplit("::", 1)[-1]):
+            return True
+    return False
+
+
 def flip(p):
     return _FLIP[p]
 
@@ -83,7 +93,7 @@ def sign_of(t, ctx, bb):
     if t[0] == "bin" and t[1] in ("Add", "Sub"):
         # 1 +- (reviewed tiny positive constant) is positive
         a, b = t[2], t[3]
-        if a[0] == "const" and b[0] == "const" and isinstance(b[1], str) and b[1] in SMALL_POSITIVE:
+        if a[0] == "const" and b[0] == "const" and isinstance(b[1], str) and (b[1] in SMALL_POSITIVE or _small_positive_tail(b[1])):
             try:
                 if float(str(a[1]).replace("f32", "").replace("f64", "")) >= 1:
                     return 1
